@@ -1,7 +1,7 @@
 (* C06 — 3D-to-2D mapping: pins and theorems about the conflict-resolution loop of the model (Model/Mapping.v), which the
    correspondence check ties to tertiary.Mapping2D3D.  Only `exact`. *)
 From Coq Require Import String Ascii ZArith List Bool Arith.
-From RV Require Import Base.Val Gen.Common Model.Mapping Proofs.C06Main.
+From RV Require Import Base.Val Base.PyStr Gen.Common Model.Mapping Proofs.C06Main Proofs.C06Bpseq Proofs.C06Rows.
 Import ListNotations.
 
 Lemma C06_pin_canonical : saenger_canonical = ["XIX"; "XX"; "XXVIII"]%string /\ lw_reverse_perm = [0; 2; 1].
@@ -24,3 +24,58 @@ Theorem C06_keeps_unconflicted : forall rs fuel can l p,
     resolve rs fuel can = Ok l -> In p can -> unconflicted can p -> In p l.
 Proof. exact resolve_keeps_unconflicted. Qed.
 Print Assumptions C06_keeps_unconflicted.
+
+(* Mapping2D3D.bpseq never raises in the model *)
+Theorem C06_bpseq_total : forall fg rs ps, exists b, mapping_bpseq fg rs ps = Ok b.
+Proof. exact mapping_bpseq_total. Qed.
+Print Assumptions C06_bpseq_total.
+
+(* the numbering: 1..N; the residue entries are the nucleotides in file order with their letters *)
+Theorem C06_numbering_indices : forall fg rs,
+    map (fun x => fst (fst x)) (numbering fg rs) = seq 1 (length (numbering fg rs)).
+Proof. exact numbering_indices. Qed.
+Print Assumptions C06_numbering_indices.
+
+Theorem C06_numbering_residues : forall fg rs,
+    flat_map (fun x => match snd x with Some ri => [(ri, snd (fst x))] | None => [] end) (numbering fg rs)
+    = map (fun ir => (fst ir, m_letter (snd ir))) (nucleotides rs).
+Proof. exact numbering_residues. Qed.
+Print Assumptions C06_numbering_residues.
+
+(* the derived BPSEQ: numbered 1..N, letters of the numbering, symmetric, every pair from a canonical input pair, every
+   unconflicted canonical pair present *)
+Theorem C06_bpseq_matching : forall fg rs ps b, mapping_bpseq fg rs ps = Ok b ->
+    map (fun e => fst (fst e)) b = seq 1 (length b) /\
+    map (fun e => fst e) b = map (fun x => fst x) (numbering fg rs) /\
+    symmetric_bpseq b /\
+    (forall ix c pr, In (ix, c, pr) b -> pr <> 0 ->
+       exists p, In p (canonical_pairs rs ps) /\
+                 ((index_of_res' (numbering fg rs) (l_i p) = Some ix /\ index_of_res' (numbering fg rs) (l_j p) = Some pr) \/
+                  (index_of_res' (numbering fg rs) (l_i p) = Some pr /\ index_of_res' (numbering fg rs) (l_j p) = Some ix))) /\
+    (forall p j k, In p (canonical_pairs rs ps) -> unconflicted (canonical_pairs rs ps) p ->
+       index_of_res' (numbering fg rs) (l_i p) = Some j -> index_of_res' (numbering fg rs) (l_j p) = Some k ->
+       exists cj ck, In (j, cj, k) b /\ In (k, ck, j) b).
+Proof. exact mapping_bpseq_spec. Qed.
+Print Assumptions C06_bpseq_matching.
+
+(* lifting: each entry naming two present residues appears, with its reverse, exactly once; dangling entries vanish *)
+Theorem C06_lift : forall ps, NoDup (lift ps) /\ forall x, In x (lift ps) <-> exists p, In p ps /\ In x (lifted_of p).
+Proof. exact lift_spec. Qed.
+Print Assumptions C06_lift.
+
+(* the rows of one LW class: residue-disjoint, non-empty, only pairs of the class, every (i, j) of the class once *)
+Theorem C06_rows_of_class : forall rs lifted lw,
+    let rows := rows_of_class rs lifted lw in
+    let mine := class_pairs rs lifted lw in
+    (forall row, In row rows -> row_disjoint row /\ row <> []) /\
+    (forall q, In q (concat rows) -> In q mine) /\
+    (forall p, In p mine -> In (ij p) (map ij (concat rows))) /\
+    NoDup (map ij (concat rows)).
+Proof. exact rows_of_class_spec. Qed.
+Print Assumptions C06_rows_of_class.
+
+(* every extended row is a symmetric matching as long as the sequence *)
+Theorem C06_extended_rows_symmetric : forall fg rs ps lw b, In (lw, b) (extended_rows fg rs ps) ->
+    symmetric_bpseq b /\ map (fun e => fst e) b = map (fun x => fst x) (numbering fg rs).
+Proof. exact extended_rows_symmetric. Qed.
+Print Assumptions C06_extended_rows_symmetric.
